@@ -3,7 +3,9 @@ package main
 // C07 — runs on a reused VM are independent of earlier runs and their contexts.
 //
 // A *history* is a list of invocations (Run / RunCode / Call) executed on ONE real
-// vm.VirtualMachine.  Every invocation gets a fresh context (id = its index) and a
+// vm.VirtualMachine.  Every invocation is handed a context OBJECT - one created for it (id = its
+// index) or one named by id and shared with other invocations, possibly cancelled already (mid-run
+// of an earlier invocation, while the VM was idle, or before its first use) - and a
 // script that descends `depth` frames and then calls the host builtin hook(); the hook
 // is the only place where contexts are cancelled while a run executes, and it waits
 // (polling vm.VerifState().Halt from the VM's own goroutine) until the watcher it
@@ -21,7 +23,9 @@ package main
 // Three things make storage that survives an invocation visible in OUTCOMES (not only in
 // registers): (1) RunCode may re-supply the very *compiler.Code object of an earlier
 // invocation (`runcode@j`; the script reads its parameters from the host, so one code object
-// is run with every behaviour); (2) "headroom probes": RunCode invocations whose pending
+// is run with every behaviour) - also after the host has compiled further snippets into it
+// (`grows`: the host keeps the object's incremental compiler); the object must run its CURRENT
+// contents, and the reference is a fresh VM running a code object with the same contents; (2) "headroom probes": RunCode invocations whose pending
 // operands fill the operand stack to the last slot a fresh VM has - one slot leaked by
 // anything earlier makes the probe overflow; (3) scripts import a FILE module through the
 // VM's importer (fmod, LocalImporter over a temp dir) and an invocation may end - error,
@@ -43,6 +47,7 @@ import (
 	"github.com/risor-io/risor/compiler"
 	"github.com/risor-io/risor/importer"
 	"github.com/risor-io/risor/object"
+	"github.com/risor-io/risor/op"
 	"github.com/risor-io/risor/parser"
 	"github.com/risor-io/risor/vm"
 )
@@ -51,6 +56,7 @@ func init() { commands["C07"] = c07_runC07 }
 
 const c07Finding = "C07-stale-context-watcher"
 const c07FindingImport = "C07-reset-drops-global-modules"
+const c07FindingLost = "C07-runcode-reset-loses-cancellation"
 const c07HookValue = -7
 
 var c07WaitBound = 5 * time.Second
@@ -67,8 +73,19 @@ type c07Inv struct {
 	FImp   bool // the script then executes `import fmod` (a file module loaded by the VM's importer)
 	MFail  bool // the ending Beh happens inside fmod's top-level code (when that code is executed)
 	Same   int  // RunCode: 1+index of the earlier RunCode invocation whose *compiler.Code is re-supplied; 0 = newly compiled
-	Pre    []int
-	During []int
+	Ctx    int  // 1+id of the context OBJECT the invocation is handed (shared by every invocation naming it); 0 = a context created for it (id = its index)
+	Grows  []int // ids of code objects (index of the RunCode invocation they were compiled for) into which the host compiles one more snippet before the invocation starts
+	Pre    []int // contexts (any id, the own one included) cancelled before the invocation starts
+	During []int // OTHER contexts cancelled by the host callback while the invocation runs
+	Sched  string // OBSERVED, only for an invocation whose context was already cancelled at its start: e | f | l (see the Lean model, `Sched`)
+}
+
+// ctxID is the id of the context object handed to invocation k
+func (v c07Inv) ctxID(k int) int {
+	if v.Ctx > 0 {
+		return v.Ctx - 1
+	}
+	return k
 }
 
 func c07Ids(xs []int) string {
@@ -80,6 +97,16 @@ func c07Ids(xs []int) string {
 		ss[i] = strconv.Itoa(x)
 	}
 	return strings.Join(ss, ".")
+}
+
+// String is the canonical text of the invocation (the case key); the oracle request appends
+// the observed schedule (wire)
+func (v c07Inv) wire() string {
+	sc := v.Sched
+	if sc == "" {
+		sc = "f"
+	}
+	return v.String() + ":" + sc
 }
 
 func (v c07Inv) String() string {
@@ -95,7 +122,11 @@ func (v c07Inv) String() string {
 	if v.Same > 0 {
 		kind += "@" + strconv.Itoa(v.Same-1)
 	}
-	return fmt.Sprintf("%s:%s:%d:%d:%d:%d:%s:%s:%s:%s", kind, v.Beh, v.Depth, v.Pend, v.V, v.Bump, bg, imp, c07Ids(v.Pre), c07Ids(v.During))
+	cx := "_"
+	if v.Ctx > 0 {
+		cx = strconv.Itoa(v.Ctx - 1)
+	}
+	return fmt.Sprintf("%s:%s:%d:%d:%d:%d:%s:%s:%s:%s:%s:%s", kind, v.Beh, v.Depth, v.Pend, v.V, v.Bump, bg, imp, c07Ids(v.Pre), c07Ids(v.During), cx, c07Ids(v.Grows))
 }
 
 // c07Canon makes a history well formed: only RunCode can re-supply a code object, only one
@@ -116,14 +147,38 @@ func c07Canon(h []c07Inv) []c07Inv {
 		if c07MaxPend > 0 && v.Pend == c07MaxPend {
 			// a headroom probe has the exact shape its bound was measured with; it is never cut
 			// short by a stale watcher (that would leave its operands on the stack: the known
-			// finding, whose effect on the stack BOUND the model does not cover)
+			// finding, whose effect on the stack BOUND the model does not cover), it has a
+			// context of its own and its code object never grows
 			v.Kind, v.Beh, v.Depth, v.Bump, v.Imp, v.FImp, v.During = "runcode", "normal", 0, 0, false, false, nil
+			v.Ctx = 0
+			v.Pre = c07Without(v.Pre, k)
 		}
+		// only code objects that exist (compiled for an earlier RunCode) and are not probes grow
+		var grows []int
+		for _, j := range v.Grows {
+			if j >= 0 && j < k && h[j].Kind == "runcode" && h[j].Same == 0 && !(c07MaxPend > 0 && h[j].Pend == c07MaxPend) {
+				grows = append(grows, j)
+			}
+		}
+		v.Grows = grows
+		// `during` names OTHER contexts
+		v.During = c07Without(v.During, v.ctxID(k))
+		v.Sched = ""
 		if !v.FImp {
 			v.MFail = false
 		}
 	}
 	return h
+}
+
+func c07Without(xs []int, x int) []int {
+	var out []int
+	for _, y := range xs {
+		if y != x {
+			out = append(out, y)
+		}
+	}
+	return out
 }
 
 // c07MaxPend is the largest number of pending operands with which the probe script
@@ -136,7 +191,7 @@ func c07ProbeInv(pend int) c07Inv {
 }
 
 func c07MeasureMaxPend() int {
-	ok := func(p int) bool { return c07Reference(0, c07ProbeInv(p), 0, false) == "ok=1" }
+	ok := func(p int) bool { return c07Reference(0, c07ProbeInv(p), 0, false, false, 0) == "ok=1" }
 	if !ok(0) || !ok(8) {
 		return 0
 	}
@@ -201,9 +256,13 @@ type c07World struct {
 	m         *vm.VirtualMachine
 	comp      *compiler.Compiler // incremental compiler feeding Run (REPL protocol)
 	acc       *object.List
-	cancels   []context.CancelFunc
-	armed     map[int]bool // contexts passed to start() on this VM whose watcher has not fired
+	ctxs      map[int]context.Context // context objects by id, created on first use
+	cancels   map[int]context.CancelFunc
+	armed     map[int]int // per context: watchers armed by start() on this VM that have not fired
 	cancelled map[int]bool
+	compilers map[int]*compiler.Compiler // RunCode: the incremental compiler behind the code object compiled for invocation k
+	gens      map[int]int                // ... and how many further snippets the host has compiled into it
+	traceHits int                        // dead-context invocations: instructions dispatched before the watcher's store was seen
 	hasCode   bool
 	curName   string // suffix of the act/over functions defined in the active code
 	isRef     bool   // fresh reference VM: other invocations' contexts do not exist here
@@ -219,7 +278,8 @@ type c07World struct {
 }
 
 func c07NewWorld(accLen int, isRef bool, withImporter bool) *c07World {
-	w := &c07World{armed: map[int]bool{}, cancelled: map[int]bool{}, isRef: isRef, codes: map[int]*compiler.Code{}}
+	w := &c07World{armed: map[int]int{}, cancelled: map[int]bool{}, isRef: isRef, codes: map[int]*compiler.Code{},
+		ctxs: map[int]context.Context{}, cancels: map[int]context.CancelFunc{}, compilers: map[int]*compiler.Compiler{}, gens: map[int]int{}}
 	items := make([]object.Object, accLen)
 	for i := range items {
 		items[i] = object.NewInt(0)
@@ -275,27 +335,40 @@ func (w *c07World) modhook() object.Object {
 		return object.NewInt(0)
 	}
 	if w.inv.Beh == "selfcancel" && !w.inv.Bg {
-		w.cancel(w.k)
+		w.cancel(w.inv.ctxID(w.k))
 	}
 	return object.NewInt(int64(c07Mode(w.inv.Beh)))
 }
 
-// cancel cancels context i; when a watcher of this VM is armed for it, wait until it has
-// stored halt=1 (a bound on the wait only; a timeout is reported, never interpreted).
-func (w *c07World) cancel(i int) {
-	if i < 0 || i >= len(w.cancels) || w.cancels[i] == nil {
-		return
+// ctxFor returns the context object with the given id, creating it on first use
+func (w *c07World) ctxFor(id int) context.Context {
+	if c, ok := w.ctxs[id]; ok {
+		return c
 	}
-	expect := w.armed[i] && !w.cancelled[i]
+	c, cancel := context.WithCancel(context.Background())
+	w.ctxs[id], w.cancels[id] = c, cancel
+	return c
+}
+
+// cancel cancels context i; when watchers of this VM are armed for it (one per invocation that
+// was started with this context object), wait until they have stored halt=1 (a bound on the
+// wait only; a timeout is reported, never interpreted).
+func (w *c07World) cancel(i int) {
+	w.ctxFor(i)
+	expect := 0
+	if !w.cancelled[i] {
+		expect = w.armed[i]
+	}
 	// The watcher goroutine of start() exits right after it has stored halt=1, so "the
-	// number of goroutines dropped by one" is a logical observation that it has fired
-	// (halt itself may already be 1 from an earlier watcher and proves nothing).
+	// number of goroutines dropped by the number of armed watchers" is a logical observation
+	// that they have fired (halt itself may already be 1 from an earlier watcher and proves
+	// nothing).
 	n0 := runtime.NumGoroutine()
 	w.cancels[i]()
 	w.cancelled[i] = true
-	if expect {
+	if expect > 0 {
 		t0 := time.Now()
-		for runtime.NumGoroutine() > n0-1 {
+		for runtime.NumGoroutine() > n0-expect {
 			if time.Since(t0) > c07WaitBound {
 				w.timeouts++
 				c07WaitBound = 100 * time.Millisecond // the verdict is already "mismatch"; do not stall the rest
@@ -316,7 +389,7 @@ func (w *c07World) cancel(i int) {
 // exit, so that goroutine counting in the next history starts from a quiet process.
 func (w *c07World) release(base int) {
 	for i, c := range w.cancels {
-		if c != nil && !w.cancelled[i] {
+		if !w.cancelled[i] {
 			c()
 		}
 	}
@@ -333,13 +406,13 @@ func (w *c07World) hook() object.Object {
 	w.hookHits++
 	if !w.isRef {
 		for _, i := range w.inv.During {
-			if i < w.k {
+			if i != w.inv.ctxID(w.k) {
 				w.cancel(i)
 			}
 		}
 	}
 	if w.inv.Beh == "selfcancel" && !w.inv.Bg {
-		w.cancel(w.k)
+		w.cancel(w.inv.ctxID(w.k))
 	}
 	return object.NewInt(c07HookValue)
 }
@@ -480,6 +553,9 @@ type c07Obs struct {
 	ModHits    int
 	Modules    int
 	IPCont     string // Run only: did vm.ip already point at the new snippet before SetIP
+	Dead       bool   // the context handed to the invocation was already cancelled when it started
+	Sched      string // observed schedule of a Dead invocation (e | f | l), "" otherwise
+	Gen        int    // RunCode: growth snippets the code object contains when the invocation starts
 	Result     object.Object // the object a successful invocation handed to the host
 	ResultPend int
 }
@@ -494,29 +570,95 @@ func (o c07Obs) stateString() string {
 	return fmt.Sprintf("%s,%d,%d,%d,%s,%d,%d", o.Outcome, o.SP, o.FP, o.Halt, b(o.Running), o.StartCount, o.PreHalt)
 }
 
-// invoke executes invocation k on this world's VM.
-func (w *c07World) invoke(k int, v c07Inv) (obs c07Obs) {
+// c07GrowSrc is the i-th snippet the host compiles into an existing code object: an expression
+// statement of its own, whose value is the result of the grown code
+func c07GrowSrc(i int) string {
+	return fmt.Sprintf("p(2) + 1000*len(acc) + %d", 1000000*i)
+}
+
+// grow compiles one more snippet into the code object that was compiled for invocation j
+func (w *c07World) grow(j int) {
+	c := w.compilers[j]
+	if c == nil {
+		return
+	}
+	w.gens[j]++
+	c07Compile(c, c07GrowSrc(w.gens[j]))
+}
+
+// newCode compiles the script of a RunCode invocation into a code object of its own, through an
+// incremental compiler that the host keeps (so that it can compile further snippets into it)
+func (w *c07World) newCode(k int, src string, gen int) *compiler.Code {
+	c, err := compiler.New(compiler.WithGlobalNames(c07GlobalNames))
+	if err != nil {
+		panic(err)
+	}
+	code := c07Compile(c, src)
+	w.compilers[k], w.gens[k] = c, 0
+	for i := 0; i < gen; i++ {
+		w.grow(k)
+	}
+	if c.Code() != code {
+		panic("C07: the incremental compiler returned a different code object")
+	}
+	return code
+}
+
+// invoke executes invocation k on this world's VM.  `refDead`/`refGen`: on a reference VM the
+// context is cancelled beforehand / the code object is compiled with that many growth snippets.
+func (w *c07World) invoke(k int, v c07Inv, refDead bool, refGen int) (obs c07Obs) {
 	w.k, w.inv = k, v
-	w.leafFP, w.leafRun, w.hookHits, w.modHits = -1, false, 0, 0
+	w.leafFP, w.leafRun, w.hookHits, w.modHits, w.traceHits = -1, false, 0, 0, 0
+	cid := v.ctxID(k)
 	if !w.isRef {
-		for _, i := range v.Pre {
-			if i < k {
-				w.cancel(i)
-			}
+		for _, j := range v.Grows {
+			w.grow(j)
 		}
+		for _, i := range v.Pre {
+			w.cancel(i)
+		}
+	} else if refDead {
+		w.cancel(cid)
 	}
 	obs.PreHalt = w.m.VerifState().Halt
-	// the invocation's own, fresh context
-	for len(w.cancels) <= k {
-		w.cancels = append(w.cancels, nil)
-	}
 	ctx := context.Background()
 	if !v.Bg {
-		var cancel context.CancelFunc
-		ctx, cancel = context.WithCancel(context.Background())
-		w.cancels[k] = cancel
-		w.armed[k] = true
+		ctx = w.ctxFor(cid)
+		obs.Dead = w.cancelled[cid]
+		if !obs.Dead {
+			w.armed[cid]++
+		}
 	}
+	// An invocation that is handed an already cancelled context: start() arms a watcher that
+	// fires at once.  Go scheduling decides WHEN its store lands; the run is held at its first
+	// dispatched instruction (verif trace hook) until the watcher goroutine has exited, so that
+	// what follows is determined: the next poll stops the run ("f"), unless no instruction was
+	// dispatched at all ("e"), or the store was wiped by RunCode's reset ("l": halt is 0 although
+	// the watcher has exited).
+	n0 := 0
+	lostSeen := false
+	arm := func() {
+		if !obs.Dead {
+			return
+		}
+		n0 = runtime.NumGoroutine()
+		vm.VerifTrace = func(m *vm.VirtualMachine, codeID string, ip int, opcode op.Code, sp int, fp int) {
+			if m != w.m {
+				return
+			}
+			w.traceHits++
+			if w.traceHits > 1 {
+				return
+			}
+			t0 := time.Now()
+			for runtime.NumGoroutine() > n0 && time.Since(t0) < c07WaitBound {
+				runtime.Gosched()
+				time.Sleep(5 * time.Microsecond)
+			}
+			lostSeen = m.VerifState().Halt == 0
+		}
+	}
+	defer func() { vm.VerifTrace = nil }()
 	suffix := "_" + strconv.Itoa(k)
 	var err error
 	var result object.Object
@@ -530,14 +672,19 @@ func (w *c07World) invoke(k int, v c07Inv) (obs c07Obs) {
 		case "runcode":
 			var code *compiler.Code
 			if v.Same > 0 && !w.isRef && w.codes[v.Same-1] != nil {
-				// the very object an earlier invocation ran
+				// the very object an earlier invocation ran - with whatever the host has compiled
+				// into it since
 				code = w.codes[v.Same-1]
 				suffix = "_" + strconv.Itoa(v.Same-1)
+				obs.Gen = w.gens[v.Same-1]
+				w.compilers[k], w.gens[k] = w.compilers[v.Same-1], w.gens[v.Same-1]
 			} else {
-				code = c07Compile(nil, c07Defs(suffix)+c07Expr(suffix, v))
+				code = w.newCode(k, c07Defs(suffix)+c07Expr(suffix, v), refGen)
+				obs.Gen = refGen
 			}
 			w.codes[k] = code
 			w.curName, w.hasCode = suffix, true
+			arm()
 			err = w.m.RunCode(ctx, code)
 			if err == nil {
 				if tos, ok := w.m.TOS(); ok {
@@ -561,6 +708,7 @@ func (w *c07World) invoke(k int, v c07Inv) (obs c07Obs) {
 				err = e
 				return
 			}
+			arm()
 			err = w.m.Run(ctx)
 			if err != nil {
 				w.m.SetIP(code.InstructionCount())
@@ -588,10 +736,34 @@ func (w *c07World) invoke(k int, v c07Inv) (obs c07Obs) {
 				err = fmt.Errorf("get: not a function (%T)", fnObj)
 				return
 			}
+			arm()
 			result, err = w.m.Call(ctx, fn, []object.Object{object.NewInt(int64(c07Mode(v.Beh))),
 				object.NewInt(int64(v.Depth)), object.NewInt(int64(v.V)), object.NewInt(int64(v.Bump)), object.NewInt(int64(c07Im(v)))})
 		}
 	}()
+	vm.VerifTrace = nil
+	if obs.Dead {
+		switch {
+		case w.traceHits == 0:
+			obs.Sched = "e"
+		case lostSeen:
+			obs.Sched = "l"
+		default:
+			obs.Sched = "f"
+		}
+		// the watcher armed for the dead context exits at once; wait for it (bounded) so that the
+		// goroutine counts of later cancellations start from a quiet process
+		t0 := time.Now()
+		for runtime.NumGoroutine() > n0 && time.Since(t0) < c07WaitBound {
+			runtime.Gosched()
+			time.Sleep(5 * time.Microsecond)
+		}
+		if obs.Sched != "l" && v.Kind != "call" {
+			// the run was stopped before its function definitions were executed: a later Call
+			// has to load definitions first
+			w.hasCode = false
+		}
+	}
 	if err != nil {
 		obs.Outcome = c07ErrClass(err)
 	} else {
@@ -609,12 +781,14 @@ func (w *c07World) invoke(k int, v c07Inv) (obs c07Obs) {
 }
 
 // c07Reference: the same invocation on a fresh VM whose host global has the same value.
-func c07Reference(k int, v c07Inv, accLen int, withImporter bool) string {
+// `dead`: it is handed a context that is already cancelled; `gen`: its code object contains
+// that many growth snippets (the code object AS IT IS when the invocation starts).
+func c07Reference(k int, v c07Inv, accLen int, withImporter bool, dead bool, gen int) string {
 	base := runtime.NumGoroutine()
 	w := c07NewWorld(accLen, true, withImporter)
 	defer w.release(base)
-	v.Pre, v.During, v.Same = nil, nil, 0
-	return w.invoke(k, v).Outcome
+	v.Pre, v.During, v.Same, v.Grows = nil, nil, 0, nil
+	return w.invoke(k, v, dead, gen).Outcome
 }
 
 func c07Nontrivial(h []c07Inv) bool {
@@ -622,7 +796,7 @@ func c07Nontrivial(h []c07Inv) bool {
 		return false
 	}
 	for _, v := range h {
-		if v.Beh != "normal" || len(v.Pre) > 0 || len(v.During) > 0 || v.Same > 0 || v.FImp || (c07MaxPend > 0 && v.Pend == c07MaxPend) {
+		if v.Beh != "normal" || len(v.Pre) > 0 || len(v.During) > 0 || v.Same > 0 || v.FImp || v.Ctx > 0 || len(v.Grows) > 0 || (c07MaxPend > 0 && v.Pend == c07MaxPend) {
 			return true
 		}
 	}
@@ -647,18 +821,21 @@ type c07Runner struct {
 	last  string
 }
 
-func (r *c07Runner) reference(k int, v c07Inv, accLen int, withImporter bool) string {
-	key := fmt.Sprintf("%s:%s:%d:%d:%d:%d:%v:%v:%v:%v:%v:%d", v.Kind, v.Beh, v.Depth, v.Pend, v.V, v.Bump, v.Bg, v.Imp, v.FImp, v.MFail, withImporter, accLen)
+func (r *c07Runner) reference(k int, v c07Inv, accLen int, withImporter bool, dead bool, gen int) string {
+	key := fmt.Sprintf("%s:%s:%d:%d:%d:%d:%v:%v:%v:%v:%v:%d:%v:%d", v.Kind, v.Beh, v.Depth, v.Pend, v.V, v.Bump, v.Bg, v.Imp, v.FImp, v.MFail, withImporter, accLen, dead, gen)
 	if s, ok := r.refs[key]; ok {
 		return s
 	}
-	s := c07Reference(k, v, accLen, withImporter)
+	s := c07Reference(k, v, accLen, withImporter, dead, gen)
 	r.refs[key] = s
 	r.nRef++
 	return s
 }
 
 // runHistory executes one history on a real VM and compares it with the model and the Spec.
+// The real VM runs first: where the code leaves the order of events to the Go scheduler (an
+// invocation that is handed an already cancelled context), the schedule that was OBSERVED is
+// part of the question put to the model.
 func (r *c07Runner) runHistory(h []c07Inv) {
 	e := r.e
 	h = c07Canon(h)
@@ -666,15 +843,6 @@ func (r *c07Runner) runHistory(h []c07Inv) {
 	key := c07Key(h)
 	e.R.Case(key, c07Nontrivial(h))
 	e.R.H("history_length", strconv.Itoa(len(h)))
-	req := []string{"C07", "hist"}
-	for _, v := range h {
-		req = append(req, v.String())
-	}
-	reply := strings.Split(e.O.Ask(req...), "\t")
-	if reply[0] != "ok" || len(reply) != len(h)+1 {
-		e.R.Mismatch(key, "-", strings.Join(reply, " "), "oracle rejected the history")
-		return
-	}
 	base := runtime.NumGoroutine()
 	w := c07NewWorld(0, false, withImporter)
 	defer w.release(base)
@@ -683,6 +851,14 @@ func (r *c07Runner) runHistory(h []c07Inv) {
 		o        object.Object
 		pend     int
 		rendered string
+	}
+	type ran struct {
+		obs       c07Obs
+		accBefore int
+		accAfter  []object.Object
+		ref       string
+		timeouts  int
+		leafRun   bool
 	}
 	var results []kept
 	defer func() {
@@ -693,18 +869,44 @@ func (r *c07Runner) runHistory(h []c07Inv) {
 			}
 		}
 	}()
+	runs := make([]ran, len(h))
 	for k, v := range h {
 		r.nInv++
-		accBefore := len(w.acc.Value())
-		obs := w.invoke(k, v)
+		x := &runs[k]
+		x.accBefore = len(w.acc.Value())
+		x.obs = w.invoke(k, v, false, 0)
+		x.leafRun = w.leafRun
+		x.timeouts, w.timeouts = w.timeouts, 0
+		x.accAfter = append([]object.Object(nil), w.acc.Value()...)
+		h[k].Sched = x.obs.Sched
+		// Code vs Spec: the same invocation on a fresh VM with the same globals, the same code
+		// object contents and a context in the same state
+		x.ref = r.reference(k, v, x.accBefore, withImporter, x.obs.Dead, x.obs.Gen)
+		if x.obs.Result != nil && k+1 < len(h) {
+			results = append(results, kept{k, x.obs.Result, x.obs.ResultPend, x.obs.Outcome})
+		}
+	}
+	req := []string{"C07", "hist"}
+	for _, v := range h {
+		req = append(req, v.wire())
+	}
+	reply := strings.Split(e.O.Ask(req...), "\t")
+	if reply[0] != "ok" || len(reply) != len(h)+1 {
+		e.R.Mismatch(key, "-", strings.Join(reply, " "), "oracle rejected the history")
+		return
+	}
+	for k, v := range h {
+		x := runs[k]
+		obs, accBefore, ref := x.obs, x.accBefore, x.ref
 		m := strings.Split(reply[k+1], ",")
-		if len(m) != 14 {
+		if len(m) != 18 {
 			e.R.Mismatch(key, "-", reply[k+1], "malformed oracle reply")
 			return
 		}
 		modelState := strings.Join(m[:7], ",")
 		modelSpec, modelStale, modelLeafFP, modelImportFails := m[7], m[8] == "1", m[9], m[10] == "1"
 		wantHook, wantMod, modelModules := 0, 0, m[13]
+		modelDead, modelLost, modelRanGen, modelCurGen := m[14] == "1", m[15] == "1", m[16], m[17]
 		if m[11] == "1" {
 			wantHook = 1
 		}
@@ -718,6 +920,27 @@ func (r *c07Runner) runHistory(h []c07Inv) {
 		e.R.H("depth", strconv.Itoa(v.Depth))
 		e.R.H("pending_operands", strconv.Itoa(v.Pend))
 		e.R.H("context", map[bool]string{true: "background", false: "cancellable"}[v.Bg])
+		if !v.Bg {
+			uses := 0
+			for j := 0; j < k; j++ {
+				if !h[j].Bg && h[j].ctxID(j) == v.ctxID(k) {
+					uses++
+				}
+			}
+			shape := "own"
+			if uses > 0 {
+				shape = "shared with " + strconv.Itoa(c07Min(uses, 3)) + "+ earlier invocation(s)"
+			} else if v.Ctx > 0 {
+				shape = "named, first use"
+			}
+			if obs.Dead {
+				shape += ", ALREADY CANCELLED at start"
+			}
+			e.R.H("context_object", shape)
+			if obs.Dead {
+				e.R.H("dead_context_kind_x_schedule", v.Kind+"/"+obs.Sched)
+			}
+		}
 		e.R.H("imports_global_module", strconv.FormatBool(v.Imp))
 		e.R.H("imports_file_module", map[bool]string{false: "no", true: map[bool]string{false: "yes", true: "yes, ending inside its top-level code"}[v.MFail]}[v.FImp])
 		if v.FImp {
@@ -726,23 +949,31 @@ func (r *c07Runner) runHistory(h []c07Inv) {
 		if v.Kind == "runcode" {
 			e.R.H("runcode_code_object", map[bool]string{false: "newly compiled", true: "re-supplied object of an earlier invocation"}[v.Same > 0])
 			e.R.H("runcode_stack_headroom_probe", strconv.FormatBool(c07MaxPend > 0 && v.Pend == c07MaxPend))
+			e.R.H("runcode_code_object_generation", fmt.Sprintf("resupplied=%v growth-snippets=%d", v.Same > 0, c07Min(obs.Gen, 3)))
 		}
+		e.R.H("code_objects_grown_before", strconv.Itoa(len(v.Grows)))
 		e.R.H("cancel_placement", fmt.Sprintf("before=%d during=%d", len(v.Pre), len(v.During)))
 		e.R.H("outcome_on_shared_vm", strings.SplitN(obs.Outcome, "=", 2)[0]+"="+c07OutcomeClass(obs.Outcome))
 		if obs.IPCont != "" {
 			e.R.H("run_ip_continuity", obs.IPCont)
 		}
 		if k > 0 {
-			e.R.H("previous_ending->kind", c07OutcomeClass(r.lastOutcome(h, k))+"->"+v.Kind)
+			e.R.H("previous_ending->kind", c07OutcomeClass(runs[k-1].obs.Outcome)+"->"+v.Kind)
 		}
 		// Code vs Impl
 		if got := obs.stateString(); got != modelState {
 			e.R.Mismatch(tag, got, modelState, "outcome,sp,fp,halt,running,startCount,haltBeforeStart")
 		}
+		if obs.Dead != modelDead {
+			e.R.Mismatch(tag, fmt.Sprintf("context already cancelled at start: %v", obs.Dead), fmt.Sprintf("%v", modelDead), "which contexts are cancelled (bookkeeping of the harness vs the model)")
+		}
+		if v.Kind == "runcode" && (strconv.Itoa(obs.Gen) != modelCurGen || modelRanGen != modelCurGen) {
+			e.R.Mismatch(tag, fmt.Sprintf("the code object contains %d growth snippets", obs.Gen), "current generation "+modelCurGen+", executed generation "+modelRanGen, "contents of the code object handed to RunCode")
+		}
 		if obs.HookHits != wantHook {
 			e.R.Mismatch(tag, fmt.Sprintf("hook called %d times", obs.HookHits), fmt.Sprintf("hook called %d times", wantHook), "how often the script reaches its leaf")
-		} else if wantHook == 1 && (strconv.Itoa(obs.LeafFP) != modelLeafFP || !w.leafRun) {
-			e.R.Mismatch(tag, fmt.Sprintf("fp=%d running=%v at the leaf", obs.LeafFP, w.leafRun), "fp="+modelLeafFP+" running=true", "state while the host callback runs")
+		} else if wantHook == 1 && (strconv.Itoa(obs.LeafFP) != modelLeafFP || !x.leafRun) {
+			e.R.Mismatch(tag, fmt.Sprintf("fp=%d running=%v at the leaf", obs.LeafFP, x.leafRun), "fp="+modelLeafFP+" running=true", "state while the host callback runs")
 		}
 		if obs.ModHits != wantMod {
 			e.R.Mismatch(tag, fmt.Sprintf("module top-level code executed %d times", obs.ModHits), fmt.Sprintf("executed %d times", wantMod), "whether `import fmod` executes the module's code (it must, unless a completely initialised module is cached)")
@@ -750,35 +981,38 @@ func (r *c07Runner) runHistory(h []c07Inv) {
 		if strconv.Itoa(obs.Modules) != modelModules {
 			e.R.Mismatch(tag, fmt.Sprintf("len(vm.modules)=%d", obs.Modules), "len(vm.modules)="+modelModules, "import cache after the invocation")
 		}
-		if w.timeouts > 0 {
-			e.R.Mismatch(tag, "watcher did not set halt within 5s", "halt=1 after cancel", "an armed watcher must fire after its context is cancelled")
-			w.timeouts = 0
+		if x.timeouts > 0 {
+			e.R.Mismatch(tag, "watcher did not set halt within 5s", "halt=1 after cancel", "every armed watcher must fire after its context is cancelled")
 		}
-		// Code vs Spec: the same invocation on a fresh VM with the same globals
-		ref := r.reference(k, v, accBefore, withImporter)
 		if ref != modelSpec {
 			e.R.Mismatch(tag+" (fresh VM)", ref, modelSpec, "Lean Spec vs the real outcome on a fresh VM")
 		}
 		if obs.Outcome != ref {
 			finding := ""
-			if modelStale && obs.Outcome == m[0] {
+			if modelLost && obs.Outcome == m[0] {
+				finding = c07FindingLost
+			} else if modelStale && obs.Outcome == m[0] {
 				finding = c07Finding
 			} else if modelImportFails && obs.Outcome == m[0] {
 				finding = c07FindingImport
 			}
-			e.R.Spec(key, fmt.Sprintf("invocation %d (%s) on the reused VM gave %s; the same invocation on a fresh VM with the same globals gives %s", k, v.String(), obs.Outcome, ref), finding)
+			what := ""
+			if obs.Dead {
+				what = " [its context was already cancelled when it started]"
+			}
+			if v.Kind == "runcode" && obs.Gen > 0 {
+				what += fmt.Sprintf(" [its code object contains %d snippet(s) compiled into it after it was first run]", obs.Gen)
+			}
+			e.R.Spec(key, fmt.Sprintf("invocation %d (%s) on the reused VM gave %s; the same invocation on a fresh VM with the same globals, code and context gives %s%s", k, v.String(), obs.Outcome, ref, what), finding)
 			e.R.H("spec_violation_shape", v.Kind+"/"+v.Beh+" -> "+c07OutcomeClass(obs.Outcome))
 		}
 		r.last = obs.Outcome
-		if obs.Result != nil && k+1 < len(h) {
-			results = append(results, kept{k, obs.Result, obs.ResultPend, obs.Outcome})
-		}
 		// the host global: exactly the appends of the invocations that reached their leaf
 		wantAcc := accBefore
 		if wantHook == 1 {
 			wantAcc += v.Bump
 		}
-		items := w.acc.Value()
+		items := x.accAfter
 		accOK := len(items) == wantAcc
 		for i := accBefore; accOK && i < wantAcc; i++ {
 			n, isInt := items[i].(*object.Int)
@@ -788,6 +1022,13 @@ func (r *c07Runner) runHistory(h []c07Inv) {
 			e.R.Mismatch(tag, fmt.Sprintf("len(acc)=%d", len(items)), fmt.Sprintf("len(acc)=%d, the new items = %d", wantAcc, v.V), "host global after the invocation (appends happen iff the leaf is reached)")
 		}
 	}
+}
+
+func c07Min(a, b int) int {
+	if a < b {
+		return a
+	}
+	return b
 }
 
 func c07OutcomeClass(o string) string {
@@ -842,6 +1083,41 @@ func (r *c07Runner) randInv(k int, rng *RNG) c07Inv {
 	if c07MaxPend > 0 && rng.Chance(8) {
 		v.Pend = c07MaxPend
 	}
+	// context objects with an identity: two named contexts shared by whoever names them, or
+	// the context of an earlier invocation; cancelled before the start (also the own one, also
+	// before its first use) or during other invocations
+	if rng.Chance(45) {
+		switch rng.Intn(3) {
+		case 0:
+			v.Ctx = 1 + 100
+		case 1:
+			v.Ctx = 1 + 101
+		default:
+			if k > 0 {
+				v.Ctx = 1 + rng.Intn(k)
+			}
+		}
+	}
+	if rng.Chance(18) {
+		v.Pre = append(v.Pre, v.ctxID(k))
+	}
+	for _, c := range []int{100, 101} {
+		switch rng.Intn(12) {
+		case 0:
+			v.Pre = append(v.Pre, c)
+		case 1:
+			v.During = append(v.During, c)
+		}
+	}
+	// the host compiles further snippets into code objects that exist
+	for i := 0; i < k; i++ {
+		if rng.Chance(25) {
+			v.Grows = append(v.Grows, i)
+			if rng.Chance(30) {
+				v.Grows = append(v.Grows, i)
+			}
+		}
+	}
 	if k > 0 {
 		// cancellation of earlier contexts: any subset, mostly small
 		for i := 0; i < k; i++ {
@@ -861,7 +1137,7 @@ func (r *c07Runner) randInv(k int, rng *RNG) c07Inv {
 
 func c07_runC07(e *Env) {
 	r := &c07Runner{e: e, refs: map[string]string{}}
-	e.R.Rule = "case = one history (list of Run/RunCode/Call invocations with behaviour, depth, pending operands, global appends, context kind, the placements of cancel(ctx_i) of earlier contexts before/during each later invocation, whether RunCode re-supplies the *compiler.Code object of an earlier invocation (runcode@j), whether the script imports a global module and/or a file module through the VM's importer and whether the run ends inside that module's top-level code (imp 2m/3m); pending operands = the measured maximum make the invocation a stack-headroom probe) executed on ONE real VM; every invocation is compared with the Lean Impl model (outcome + sp, fp, halt, running, startCount, halt before start, fp at the leaf, len(vm.modules), leaf reached, module code executed) and with the same invocation on a fresh VM with the same globals and importer (Spec); after the history the result objects of all earlier successful invocations must still read as they did when returned (Spec), and the host global holds exactly the appends of the invocations that reached their leaf (Impl). distinct = canonical history text; non-trivial = length >= 2 and at least one abnormal ending, cancellation of an earlier context, re-supplied code object, file-module import or headroom probe"
+	e.R.Rule = "case = one history (list of Run/RunCode/Call invocations with behaviour, depth, pending operands, global appends, context kind, the placements of cancel(ctx_i) of earlier contexts before/during each later invocation, which context OBJECT it is handed (its own, a named one shared with other invocations, the one of an earlier invocation - possibly cancelled mid-run earlier, while the VM was idle, or before its first use), whether RunCode re-supplies the *compiler.Code object of an earlier invocation (runcode@j) and which code objects the host has compiled further snippets into before the invocation (grows), whether the script imports a global module and/or a file module through the VM's importer and whether the run ends inside that module's top-level code (imp 2m/3m); pending operands = the measured maximum make the invocation a stack-headroom probe) executed on ONE real VM; every invocation is compared with the Lean Impl model (outcome + sp, fp, halt, running, startCount, halt before start, fp at the leaf, len(vm.modules), leaf reached, module code executed) and with the same invocation on a fresh VM with the same globals and importer, a code object with the same CURRENT contents and a context in the same state (Spec); where the code leaves the order to the Go scheduler (the watcher of an already cancelled context) the run is held at its first instruction until the watcher has exited and the observed schedule is given to the model; after the history the result objects of all earlier successful invocations must still read as they did when returned (Spec), and the host global holds exactly the appends of the invocations that reached their leaf (Impl). distinct = canonical history text; non-trivial = length >= 2 and at least one abnormal ending, cancellation of a context, shared/named context, re-supplied or grown code object, file-module import or headroom probe"
 	t0 := time.Now()
 	defer func() {
 		if c07ModDir != "" {
@@ -921,6 +1197,106 @@ func c07_runC07(e *Env) {
 				}
 			}
 		}
+	}
+
+	// 0f. SHARED CONTEXT OBJECTS.  One context object c handed to several invocations; cancelled
+	// in the middle of one of them (selfcancel), while the VM is idle (pre of the next), or
+	// before its first use; then handed to later invocations of every kind and ending, which
+	// must be stopped by it (fresh VM with that context: context.Canceled) - and a live shared
+	// context must keep working (two watchers armed for it; both fire when it is cancelled).
+	{
+		const c = 1 + 100
+		const d = 1 + 101
+		laterBehs := []string{"normal", "err", "selfcancel"}
+		for _, k1 := range c07Kinds {
+			for _, k2 := range c07Kinds {
+				for _, b2 := range laterBehs {
+					y := c07Inv{Kind: k2, Beh: b2, Depth: 1, Pend: 1, V: 7, Bump: 1, Ctx: c}
+					yPre := y
+					yPre.Pre = []int{100}
+					// cancelled mid-run, then handed in again (twice)
+					x := c07Inv{Kind: k1, Beh: "selfcancel", Depth: 2, Pend: 1, V: 5, Bump: 1, Ctx: c}
+					r.runHistory([]c07Inv{x, y})
+					r.runHistory([]c07Inv{x, y, y})
+					// used normally, cancelled while the VM is idle, then handed in again
+					xn := x
+					xn.Beh = "normal"
+					r.runHistory([]c07Inv{xn, yPre})
+					r.runHistory([]c07Inv{xn, yPre, y})
+					// cancelled before its first use
+					r.runHistory([]c07Inv{yPre})
+					r.runHistory([]c07Inv{xn, c07Inv{Kind: k2, Beh: b2, Depth: 0, V: 8, Bump: 1, Ctx: d, Pre: []int{101}}, y})
+					// an invocation with another context in between; the shared one is cancelled
+					// during it (stale watcher: known finding) or before it
+					mid := c07Inv{Kind: k2, Beh: "normal", Depth: 1, V: 6, Bump: 1, Ctx: d, Pre: []int{100}}
+					r.runHistory([]c07Inv{xn, mid, y})
+					// live and shared: both keep working; cancelling it mid-run stops that run
+					r.runHistory([]c07Inv{xn, y, xn})
+					// the context of an EARLIER invocation, handed in again by index
+					z := y
+					z.Ctx = 1 + 0
+					own := c07Inv{Kind: k1, Beh: "selfcancel", Depth: 1, V: 5, Bump: 1}
+					r.runHistory([]c07Inv{own, z})
+					ownN := own
+					ownN.Beh = "normal"
+					z.Pre = []int{0}
+					r.runHistory([]c07Inv{ownN, z, z})
+				}
+			}
+		}
+	}
+
+	// 0g. GROWING CODE OBJECTS.  The host keeps the incremental compiler of a RunCode code object
+	// and compiles further snippets into it between invocations; the object is re-supplied after
+	// it grew - directly, after invocations of every kind and ending, several times - and must
+	// run its CURRENT contents (fresh VM: a code object with the same contents).
+	{
+		base := c07Inv{Kind: "runcode", Beh: "normal", Depth: 1, Pend: 1, V: 3, Bump: 1}
+		again := func(g int, beh string) c07Inv {
+			v := c07Inv{Kind: "runcode", Beh: beh, Depth: 0, Pend: 1, V: 4, Bump: 1, Same: 1}
+			for i := 0; i < g; i++ {
+				v.Grows = append(v.Grows, 0)
+			}
+			return v
+		}
+		for _, b0 := range []string{"normal", "err", "panic", "selfcancel"} {
+			b := base
+			b.Beh = b0
+			for _, b1 := range []string{"normal", "err", "selfcancel"} {
+				r.runHistory([]c07Inv{b, again(1, b1)})
+				r.runHistory([]c07Inv{b, again(2, b1), again(0, "normal")})
+				r.runHistory([]c07Inv{b, again(1, b1), again(1, "normal"), again(1, "normal")})
+				r.runHistory([]c07Inv{b, again(0, b1), again(1, "normal")})
+			}
+			for _, kind := range c07Kinds {
+				for _, beh := range c07Behs {
+					x := c07Inv{Kind: kind, Beh: beh, Depth: 2, Pend: 1, V: 5, Bump: 1}
+					xg := x
+					xg.Grows = []int{0}
+					a := again(0, "normal")
+					a.Same = 1
+					a2 := again(1, "normal")
+					r.runHistory([]c07Inv{b, xg, a})
+					r.runHistory([]c07Inv{b, x, a2, x, a2})
+				}
+			}
+		}
+		// two growing objects, interleaved; a fresh object with the same first snippet in between
+		o2 := c07Inv{Kind: "runcode", Beh: "normal", Pend: 0, V: 9, Bump: 0}
+		r.runHistory([]c07Inv{base, o2,
+			{Kind: "runcode", Beh: "normal", Pend: 1, V: 4, Same: 1, Grows: []int{0, 1}},
+			{Kind: "runcode", Beh: "normal", Pend: 0, V: 4, Same: 2, Grows: []int{1}},
+			{Kind: "runcode", Beh: "normal", Pend: 1, V: 4},
+			{Kind: "call", Beh: "normal", V: 4, Grows: []int{0}},
+			{Kind: "runcode", Beh: "normal", Pend: 1, V: 4, Same: 1}})
+		// shared cancelled context AND grown code in one history
+		r.runHistory([]c07Inv{
+			{Kind: "runcode", Beh: "selfcancel", Pend: 1, V: 3, Bump: 1, Ctx: 1 + 100},
+			{Kind: "runcode", Beh: "normal", Pend: 1, V: 4, Bump: 1, Same: 1, Grows: []int{0}, Ctx: 1 + 100},
+			{Kind: "runcode", Beh: "normal", Pend: 1, V: 4, Bump: 1, Same: 1, Grows: []int{0}},
+			{Kind: "run", Beh: "normal", Pend: 1, V: 4, Bump: 1, Ctx: 1 + 100},
+			{Kind: "call", Beh: "normal", V: 4, Bump: 1},
+			{Kind: "call", Beh: "normal", V: 4, Bump: 1, Ctx: 1 + 100}})
 	}
 
 	// 0b. one long RunCode-only history (1100 invocations, cheap endings, pending operands):
